@@ -81,6 +81,15 @@ def scenario(draw) -> Dict[str, Any]:
     else:
         main['gap'] = draw(st.one_of(st.sampled_from([0, 1, 1000, 1999, 2000, 2001, 4000, 9999, 10001, 29000, 31000, 60000]),
                                      st.integers(0, 1200000)))
+    if main['port'] != 5353 and draw(st.integers(0, 4)) == 0:
+        # the same machine also runs an mDNS querier whose truncated query (TC bit, port 5353) is being held for its continuation
+        # when the legacy resolver's query arrives from the same address: the two have nothing to do with each other
+        events.append({'gap': draw(st.sampled_from([0, 3000])), 'kind': 'query', 'qs': [draw(q_st(len(services)))[:4] + [False]], 'ka': [],
+                       'client': main['client'], 'family': main['family'], 'port': 5353, 'sock': main['sock'], 'id': 0, 'tc': True,
+                       'tc_hold': True})
+        main.pop('quarter', None)
+        main.pop('delta', None)
+        main['gap'] = draw(st.sampled_from([1, 50, 100, 350]))
     events.append(main)
     has_qu = any(qq[4] for qq in main['qs'])
     if main['port'] == 5353 and has_qu and not main['probe'] and draw(st.integers(0, 2)) == 0:
@@ -335,6 +344,8 @@ def check(case: Dict[str, Any]) -> Dict[str, Any]:
         classes.append('quarter-grid')
     if exp:
         classes.append('has-expected-answers')
+    if any(x['ev'].get('tc_hold') for x in run.queries):
+        classes.append('legacy-query-while-a-truncated-query-from-the-same-address-is-held')
     if twins:
         classes.append('same-bytes-from-a-second-legacy-source' if q['legacy'] else 'same-QU-query-bytes-from-a-second-host')
         if not q['legacy'] and any(v is not None and res2['rec'].get(i) is not None and v != res2['rec'][i] for i, v in rec.items()):
